@@ -187,7 +187,11 @@ type presult struct {
 }
 
 func (p presult) String() string {
-	return fmt.Sprintf("(%x,%x,%x,%d)", p.pid, p.ctx, p.md, p.tag)
+	md := fmt.Sprintf("%x", p.md)
+	if len(p.md) > 24 {
+		md = fmt.Sprintf("%x..(%d bytes)", p.md[:8], len(p.md))
+	}
+	return fmt.Sprintf("(%x,%x,%s,%d)", p.pid, p.ctx, md, p.tag)
 }
 
 type findOutcome struct {
